@@ -26,7 +26,7 @@ class Spec(core.PropSpec):
 
     def gen_plan(self, seed, tier):
         st = core.Streams(seed)
-        w = T.gen_world(st("world"))
+        w = T.gen_world(st("world"), max_n=40 if tier == "quick" else 96, max_cfg=4 if tier == "quick" else 6)
         ro = st("ops")
         return dict(world=w, via=ro.choice(["sampler", "batch_sampler"]), reiterate=ro.random() < 0.3,
                     foreign_epoch=ro.choice([None, None, None, 97]))
